@@ -63,7 +63,34 @@ def commits_table():
         out.append("| %s | %s | %s |" % (h, kind, s.replace("|", "/")))
     return "\n".join(out)
 
-tables = {"status": status_table(), "fixed": findings_table("fixed"), "open": findings_table("open"), "seeds": seeds_table(), "commits": commits_table()}
+def props_section():
+    titles = {json.loads(l)["id"]: json.loads(l)["title"] for l in open(os.path.join(ROOT, "properties.jsonl"))}
+    out = []
+    for p in sorted(glob.glob(os.path.join(ROOT, "conf/C*.json"))):
+        c = json.load(open(p)); pid = c["id"]; m = c.get("manifest", {})
+        out.append("### %s — %s" % (pid, titles.get(pid, "")))
+        out.append("")
+        out.append("**Level** `%s`. **Technique** %s." % (c.get("level"), m.get("technique", "").rstrip(".")))
+        out.append("")
+        out.append(m.get("text", "").strip())
+        out.append("")
+        mods = c.get("props_modules") or [c.get("props_module")]
+        out.append("*Theorem modules:* %s. *Model executable:* `%s` (`%s`). *Harness:* `harness/src/bin/%s.rs`." % (", ".join("`%s`" % x for x in mods), c.get("exe"), c.get("exe_root", ""), c.get("bin")))
+        req = c.get("required_theorems", [])
+        if req:
+            out.append("")
+            out.append("*Required theorems (%d):* %s" % (len(req), ", ".join("`%s`" % r.split(".")[-1] for r in req[:40]) + (" …" if len(req) > 40 else "")))
+        out.append("")
+        out.append("*Trusted / assumed:* " + m.get("level_note", "").strip())
+        ass = c.get("assumptions", [])
+        if ass:
+            out.append("")
+            for a in ass[:8]:
+                out.append("* " + a.replace("\n", " "))
+        out.append("")
+    return "\n".join(out)
+
+tables = {"props": props_section(), "status": status_table(), "fixed": findings_table("fixed"), "open": findings_table("open"), "seeds": seeds_table(), "commits": commits_table()}
 p = os.path.join(ROOT, "DESIGN.md")
 s = open(p).read()
 for k, v in tables.items():
